@@ -156,4 +156,11 @@ PROPS = {
         gen_obligations=["Gen.capDwac","Gen.dwrDrainsFirst","Gen.dwaSendNonBlocking","Gen.dwrMakeDWR","Gen.dwrWrites","Gen.dwrCloses","Gen.dwrLoopCond"],
         trusted=CLIENT_TRUST,
     ),
+    "C18": dict(
+        domains=[("reflect", "rt", 4200, 63000)],
+        relevant=["C18:"],
+        theorems=["DV.Props.C18."+t for t in ["C18_faithful","C18_leaf","C18_optional","C18_leaf_inverse"]],
+        gen_obligations=["Gen.marshalCases"],
+        trusted=CODEC_TRUST + ["Model.Reflect hand-written from diam/reflect.go (marshalStruct, marshal, scanStruct, unmarshal, parseAvpTag for single-key tags, isEmptyValue); Go's assignability / convertibility between the field types of the harness' struct family is the pair toData / fromData; the harness' reflection walker that describes Go struct types and values to the model"],
+    ),
 }
